@@ -1,7 +1,9 @@
 (* Model of the small persistent codecs (C08):
-     weed/storage/super_block/replica_placement.go   NewReplicaPlacementFromString/FromByte, Byte, String
+     weed/storage/super_block/replica_placement.go   NewReplicaPlacementFromString (as repaired: lengths
+                                                     other than 0 and 3 are errors), FromByte, Byte, String
      weed/storage/super_block/super_block.go         SuperBlock.Bytes, BlockSize
-     weed/storage/super_block/super_block_read.go.go ReadSuperBlock
+     weed/storage/super_block/super_block_read.go.go ReadSuperBlock (as repaired: the extra bytes are read
+                                                     from the file before proto.Unmarshal)
      weed/storage/needle/volume_ttl.go               ReadTTL (as repaired: counts outside 0..255 and
                                                      unknown units are errors), String, ToBytes,
                                                      LoadTTLFromBytes, ToUint32, LoadTTLFromUint32
@@ -107,7 +109,9 @@ Fixpoint rp_parse (i : N) (s : list N) (r : rp) : option rp :=
            else if i =? 2 then (dc, rack, count) else r)
       else None
   end.
-Definition rp_from_string (s : list N) : option rp := rp_parse 0 s (0, 0, 0).
+(* as repaired: a string that is neither empty (the default, 000) nor 3 bytes long is an error *)
+Definition rp_from_string (s : list N) : option rp :=
+  if negb (len s =? 0) && negb (len s =? 3) then None else rp_parse 0 s (0, 0, 0).
 (* fmt.Sprintf("%03d", b) for a byte *)
 Definition fmt03 (b : N) : list N := [48 + b / 100; 48 + (b / 10) mod 10; 48 + b mod 10].
 Definition rp_from_byte (b : N) : option rp := rp_from_string (fmt03 b).
@@ -265,18 +269,23 @@ Definition sb_bytes (s : super_block) : list N :=
 Definition sb_block_size (s : super_block) : N :=
   if (sb_version s =? 2) || (sb_version s =? 3) then 8 + len (sb_extra s) else 8.
 
-(* ReadSuperBlock.  When ExtraSize > 0 the code allocates a zero buffer of that size, never
-   fills it from the file, and hands it to proto.Unmarshal, which rejects it (field tag 0 is
-   illegal): the read fails. *)
-Definition sb_read (file : list N) : option super_block :=
+(* ReadSuperBlock, as repaired: when ExtraSize > 0 the extra bytes are read from the file at
+   offset 8 (a short read is an error) and handed to proto.Unmarshal.
+   [pb] is the protobuf oracle: pb b = Some (proto.Marshal of the message proto.Unmarshal
+   decodes from b), None when Unmarshal fails. *)
+Definition sb_read (pb : list N -> option (list N)) (file : list N) : option super_block :=
   if len file <? 8 then None else
   match rp_from_byte (nth 1 file 0) with
   | None => None
   | Some r =>
       let extra_size := be_decode (takeN 2 (dropN 6 file)) in
-      if 0 <? extra_size then None
-      else Some {| sb_version := nth 0 file 0; sb_rp := r; sb_ttl := (nth 2 file 0, nth 3 file 0);
-                   sb_compaction := be_decode (takeN 2 (dropN 4 file)); sb_extra := [] |}
+      let mk := fun e => Some {| sb_version := nth 0 file 0; sb_rp := r; sb_ttl := (nth 2 file 0, nth 3 file 0);
+                                 sb_compaction := be_decode (takeN 2 (dropN 4 file)); sb_extra := e |} in
+      if 0 <? extra_size then
+        let extra := takeN extra_size (dropN 8 file) in
+        if len extra <? extra_size then None
+        else match pb extra with Some e => mk e | None => None end
+      else mk []
   end.
 
 (* ---------- index entries (4-byte offsets) ---------- *)
